@@ -1281,10 +1281,10 @@ def sweep_jobs(root: int, groups: list, refcache: RefCache, specs: list, hot_inf
 # batch
 # --------------------------------------------------------------------------
 
-TIERS = {"quick": {"runs": 600, "wall": 420.0, "groups": 9, "hot_cap": 600, "hot3_cap": 100,
-                   "sweeps": [(0, "call", 48), (1, "call", 48), (2, "call", 8), (3, "call", 64), (4, "call", 48),
-                              (5, "call", 2048), (6, "call", 48), (7, "call", 8), (8, "call", 16), (8, "grid2", 16),
-                              (0, "line", 384)]},
+TIERS = {"quick": {"runs": 320, "wall": 420.0, "groups": 9, "hot_cap": 600, "hot3_cap": 100,
+                   "sweeps": [(0, "call", 96), (1, "call", 96), (2, "call", 12), (3, "call", 128), (4, "call", 96),
+                              (5, "call", 4096), (6, "call", 96), (7, "call", 24), (8, "call", 32), (8, "grid2", 16),
+                              (0, "line", 768)]},
          "thorough": {"runs": 60000, "wall": 3000.0, "groups": 12, "hot_cap": 4000, "hot3_cap": 2500,
                       "sweeps": [(i, "callret", 1) for i in range(12)] + [(i, "line", 4) for i in range(12)]
                       + [(8, "grid2", 2), (7, "grid2", 4), (3, "grid2", 64)]}}
